@@ -124,7 +124,7 @@ PROPS["C06"] = {
             "alignment relative to the 64-byte translation window, straight-line runs longer than a window, function entry in the middle of the program, the image as one or as two adjacent memory sections; 3-4 initial states "
             "per program. Structure per function: address and entry block, no edge naming a missing block, each statically reachable instruction present with exactly the IL "
             "operations of its own lifting (neither missing nor duplicated). Non-trivial = an execution of >= 2 distinct instructions compared to its end; distinct = "
-            "(translator, end kind, loop, window-crossing, mid-block target, manual/indirect/overlap features). Direct calls (x86 call rel32, MIPS jal/bal with delay slot, PPC bl, A64 bl) stand where returns stand in half of the cases: a Branch operation that ends the run wherever in a block or 64-byte window it happens to be.",
+            "(translator, end kind, loop, window-crossing, mid-block target, manual/indirect/overlap features). Direct calls (x86 call rel32, MIPS jal/bal with delay slot, PPC bl, A64 bl) stand where returns stand in half of the cases: a Branch operation that ends the run wherever in a block or 64-byte window it happens to be. One program in four is lifted from falcon::executor::Memory (paged memory over a backing) in which the backing holds stale bytes for 1-3 stretches and the right bytes are stored on top, stretches starting at 1024-byte page boundaries included; one base address in five lies beyond 0x80000000 (32-bit translators) or far above 4 GiB (64-bit ones); x86 programs contain cld/std and string instructions.",
     "level_text": "Sampled (program, initial state) pairs; the sequential oracle uses falcon's own single-instruction lifting (judged separately by C01-C03), so this check isolates block discovery, sharing, edges, windows and merging.",
     "level_note": "a Branch operation hands control to its target (executor semantics); execution stays inside the function only through a requested manual edge; runs are cut at 1500 IL operations on both sides; trusts refinterp.rs/refeval.rs",
     "assumptions": [
@@ -165,7 +165,7 @@ PROPS["C09"] = {
             "construction, additionally verified by brute force, None = bottom), forward and backward: the returned map must equal the independent "
             "least solution (same key set = locations reachable from entry/exit, same state everywhere). Random table transfer functions (usually "
             "non-monotone) must give FixedPointOrdering/FixedPointMaxSteps or a map satisfying the equations; an unbounded counter with a small "
-            "budget must give FixedPointMaxSteps iff a cycle is reachable. Distinct = (direction, monotone?, lattice, cyclic, entry-in-loop, empty blocks).",
+            "budget must give FixedPointMaxSteps iff a cycle is reachable. Distinct = (direction, monotone?, lattice, cyclic, entry-in-loop, empty blocks). One monotone run in three passes force = true (states joined instead of compared): same least solution expected. Functions come from ilgen with sparse and unordered instruction indices, permuted block numbering and empty entry blocks.",
     "level_text": "Sampled (function, analysis) pairs; each is decided exactly by comparison with an independently computed least fixed point.",
     "level_note": "trusts the Kleene iteration and lattice tables in harness/src/c09.rs and harness/src/locgraph.rs; the backward solver has no step budget, so unbounded-height analyses are only fed to the forward solver",
     "assumptions": ["least solution is computed with 'no state' (None) as bottom, as the solver's interface defines it"],
@@ -225,7 +225,7 @@ PROPS["C13"] = {
             "unrestricted (Ok or Err accepted, never a panic); branches assigning different values, loops, loads, indirect branches, intrinsics, "
             "one in eight with unreachable blocks. 6 executions of <=150 steps each: before each executed location every reported constant of a "
             "scalar the function has assigned must equal the concrete value; operand expressions and random expressions over assigned scalars must "
-            "evaluate (Constants::eval) to None or the concrete value. Distinct = (mode, block count, back edge, constants reported, constants derived).",
+            "evaluate (Constants::eval) to None or the concrete value. Distinct = (mode, block count, back edge, constants reported, constants derived). One function in three contains calls (a Branch to a constant in the middle of a block): the reference execution lets the callee change up to three scalars and resumes at the next instruction; what was reported before the call must not be reported as still holding after it unless re-established.",
     "level_text": "Sampled functions and executions; the monitor judges every (location, scalar) report met by an execution.",
     "level_note": "trusts harness/src/refinterp.rs; reports about scalars the function has not assigned in the current run are not judged (as the statement says)",
     "assumptions": ["intrinsics with declared written scalars are executed as writes of those scalars; undeclared ones as no-ops", "an execution ends at an indirect branch"],
@@ -272,7 +272,7 @@ PROPS["C03"] = {
             "br/blr/ret, hints) plus uniformly random words; register fields biased to 31/30 and to aliasing operands (Rd = Rm, Rd = Rn, a register moved onto itself); register values biased to pointers/small ints/corners, random NZCV; the bytes an access "
             "touches are discovered by a probe run of the reference and mapped with random data; little- and big-endian data. Compared: X0-X30, SP, "
             "NZCV, V0-V31, all memory, next PC. Thorough adds exhaustive 12-bit immediate (x LSL#12) and 6-bit shift-amount sweeps. Non-trivial = the "
-            "instruction changed a compared output; distinct = (a64ref class, endianness).",
+            "instruction changed a compared output; distinct = (a64ref class, endianness). One case in four lifts just below 4 GiB, at 4 GiB or far above it (0x7f12_3440_0000, 0xffff_ffc0_0000) instead of the usual low text address. Three block cases per random case: 0-6 accepted straight-line instructions, an accepted branch and up to two more lifted as one block and compared with instruction-by-instruction a64ref execution.",
     "level_text": "Sampled (word, state) pairs per instruction class against an independently written interpreter; words that the reference classifies "
                   "as UNDEFINED/UNPREDICTABLE/unmodelled are counted and not judged.",
     "level_note": "trusts harness/src/a64ref.rs (106 hand-computed unit tests by its author), refinterp.rs and refeval.rs; a misreading of the Arm ARM shared by falcon and a64ref would be invisible",
@@ -295,7 +295,7 @@ PROPS["C01"] = {
             "high-byte registers, aliasing operands; corner-biased register, flag and memory contents; one case in four lifts the instruction as the second of its block (after a nop); register values "
             "solved so the memory operand lands in a 6 KiB scratch arena shared by both sides. 2/3 of the cases run in 64-bit mode; 32-bit mode cases "
             "are lifted by translator::x86::X86 and run natively through the mode-equivalence map (same bytes with an address-size prefix; 0x40-0x4f "
-            "mapped to FF /0,/1). Non-trivial = the instruction changed a compared output; distinct = (mode, form, operand size, reg/mem).",
+            "mapped to FF /0,/1). Non-trivial = the instruction changed a compared output; distinct = (mode, form, operand size, reg/mem). Relative branches (jmp/jcc/call/loop/jrcxz rel8/rel32) take a REX prefix in one 64-bit case in four and, after the comparison with the processor, are lifted a second time 0x7f0000000000 (64-bit mode) or 0xe0000000 (32-bit mode) higher: the processor's behaviour does not depend on where such an instruction stands, so the second IL run must end at the first one's next address plus that distance, with the same registers and memory except for a pushed return address, which moves along.",
     "level_text": "Sampled (encoding, state) pairs per instruction form against the processor itself; architecturally undefined flags and results are masked per the SDM; native faults (SIGSEGV/SIGILL/divide error) are counted and not judged.",
     "level_note": "the host runs only 64-bit code: 32-bit-mode lifting is compared through equivalent 64-bit encodings (absolute disp32 through the SIB no-base form); "
                   "the forms without one (stack-width instructions push/pop/call/ret/leave and indirect jmp/call in 32-bit mode) are judged against a 100-line hand model "
@@ -325,7 +325,7 @@ PROPS["C02"] = {
             "of control as the executor does, and all registers, memory and the next pc are compared; a covered branch must have its slot covered. "
             "One case in seven is a PPC block built the same way (0-6 accepted straight-line instructions, an accepted branch, 0-2 more) against ppcref. "
             "Block fillers are chosen incrementally so that the reference defines their outcome in the state reached so far. "
-            "Non-trivial = a compared output changed; distinct = (arch, mnemonic, with-slot) and (arch, branch, block shape, covered part).",
+            "Non-trivial = a compared output changed; distinct = (arch, mnemonic, with-slot) and (arch, branch, block shape, covered part). One case in four lifts at an address in another 256 MiB region, across 0x80000000 or near the top of the address space instead of the usual low text address.",
     "level_text": "Sampled (word, state) pairs per mnemonic against independently written interpreters; unaligned accesses, UNPREDICTABLE forms, "
                   "reserved BO encodings and accesses/branches that wrap around the 32-bit address space are counted and not judged.",
     "level_note": "trusts harness/src/mipsref.rs (75 hand-computed tests) and ppcref.rs (120 tests), refinterp.rs, refeval.rs; falcon does not model XER[SO]/[OV], so CR SO bits start at 0 and OE forms are not generated",
